@@ -9,6 +9,10 @@ From SK Require Import model.C05_Model proof.C05_Proof proof.C05_Order.
 Import ListNotations.
 Local Open Scope Z_scope.
 
+Section WithThr.
+Context {TH : Thr}.
+
+
 (** adjacency through "keep the edges that satisfy [c], relabelled by [f]" *)
 Lemma find_edge_flat_sub {B C} (c : B -> bool) (f : B -> C) (es : list (N * N * B)) a b : simpleP (pairs es) ->
   find_edge a b (flat_map (fun e : N * N * B => let '(u, v, x) := e in if c x then [(u, v, f x)] else []) es)
@@ -139,3 +143,5 @@ Proof.
   { rewrite (has_XH_same _ _ HL (dec_side_simple iG eG U HwU) (dec_side_simple iG eG U' HwU')). exact Hflag. }
   eexists. split; [reflexivity|]. simpl. rewrite Hx, Hflag. split; [reflexivity|]. split; [exact HSU | exact HL].
 Qed.
+
+End WithThr.
